@@ -14,6 +14,7 @@ FilesAll == {
   [D EXCEPT !.fmt = "cmdfile", !.out = "filenoarg"],
   [D EXCEPT !.fmt = "cmdfile", !.out = "unknown"],
   [D EXCEPT !.fmt = "cmdfile", !.out = "filetpl"],
+  [D EXCEPT !.fmt = "cmdfile", !.out = "filefifo"],
   [D EXCEPT !.fmt = "cmdfile", !.out = "file",   !.chain = "drop"],
   [D EXCEPT !.fmt = "cmdfile", !.out = "stdout", !.chain = "pass;drop"],
   [D EXCEPT !.fmt = "cmdfile", !.out = "devlog", !.chain = "drop;pass"],
